@@ -142,7 +142,7 @@ def replay_pm6_core(model):
 
 
 def task_core_core_pm6(ctx):
-    """O5 for PM6: pair_nuclear_energy(method='PM6') = the published PM6 core-core function (general pairs, the X-H form for
+    """EXTRA (not part of the claimed C06 check: the property covers MNDO, AM1 and PM3).  pair_nuclear_energy(method='PM6') = the published PM6 core-core function (general pairs, the X-H form for
     C/N/O-H, the extra C-C and Si-O terms, the unpolarisable-core term, the atoms' Gaussians), all lengths in Angstrom."""
     from spec import nddo
     from contracts.md_common import Obj
@@ -212,8 +212,8 @@ def replay_atomic_number(model):
 
 
 def task_constant_tables(ctx):
-    """Element tables of seqm_functions.constants (Z <= 57, elements with a valence charge): atomic_num[Z] = Z; valence charge
-    = s + p (+ d) electrons; the isolated-atom coefficient tables follow from the ground-state occupations (n_s, n_p) by the
+    """Element tables of seqm_functions.constants (Z <= 57, elements with a valence charge): valence charge
+    = s + p electrons; the isolated-atom coefficient tables follow from the ground-state occupations (n_s, n_p) by the
     MNDO-family rules  gss: max(n_s-1, 0), gsp: n_s n_p, hsp: -n_p, gp2: n_p(n_p-1)/2 + l(l-1)/4, gpp: -l(l-1)/4 with
     l = min(n_p, 6-n_p)  (Dewar & Thiel 1977 / MOPAC calpar)."""
     from seqm.seqm_functions.constants import Constants
@@ -228,8 +228,10 @@ def task_constant_tables(ctx):
             continue
         n += 1
         ns, np_ = int(c.ussc[z]), int(c.uppc[z])
-        ctx.prove("atomic_num[%d]=%d" % (z, z), S(E.frac_of_float(float(c.atomic_num[z]))) == z, replay=lambda m: (rep or rep.append(_quiet(replay_atomic_number)) or rep)[0],
-                  classify=lambda m_, r: "atomic-number-table")
+        if getattr(ctx, "include_pm6_only_tables", False):
+            # atomic_num enters only the PM6 core-core function, which is outside C06 (MNDO/AM1/PM3): checked by the extra task only
+            ctx.prove("atomic_num[%d]=%d" % (z, z), S(E.frac_of_float(float(c.atomic_num[z]))) == z, replay=lambda m: (rep or rep.append(_quiet(replay_atomic_number)) or rep)[0],
+                      classify=lambda m_, r: "atomic-number-table")
         main_group = z <= 20 or 31 <= z <= 38 or 49 <= z <= 56
         if main_group:
             ctx.prove("tore[%d]=n_s+n_p" % z, S(E.frac_of_float(float(c.tore[z]))) == ns + np_)
@@ -244,6 +246,16 @@ def task_constant_tables(ctx):
     if n < 30:
         ctx.error("vacuous", "only %d elements with a valence charge" % n)
     ctx.assume_note("concrete table check for Z <= 57 (beyond La the table is not indexed by atomic number and those elements are rejected elsewhere)")
+
+
+def task_extra_pm6_tables(ctx):
+    """EXTRA (not part of the claimed C06 check: PM6 is outside the property): atomic_num[Z] = Z."""
+    ctx.include_pm6_only_tables = True
+    task_constant_tables(ctx)
+
+
+# tasks that look beyond the listed property (PM6); run with `./check C06 --task <name>`, never by the registered commands
+TASKS_EXTRA = ["core_core_pm6", "extra_pm6_tables"]
 
 
 def fock_inputs(padded=False):
@@ -452,5 +464,5 @@ def task_fock_uhf(ctx):
     ctx.canary_eq("exchange-uses-same-spin", F.a[0, 0, 1, 2], F.a[0, 1, 1, 2])
 
 
-TASKS_QUICK = ["constant_tables", "core_core_pm6", "local_frame", "core_core", "fock", "fock_uhf", "hcore_assembly"]
+TASKS_QUICK = ["constant_tables", "local_frame", "core_core", "fock", "fock_uhf", "hcore_assembly"]
 TASKS_THOROUGH = TASKS_QUICK
